@@ -157,7 +157,71 @@ def families(ctx, reps, do_model=True):
                     one(ctx, name, cfg, f, lambda k, c, fn=fn: fn(c), do_model, total_fn=fn, label="family")
 
 
+def scoped_oracle(content):
+    """a call `crash();` and a well-formed block must exist; `crash();` inside a block needs `setup();` before that block"""
+    depth, block, setup, crashed = 0, False, False, False
+    for line in content.splitlines():
+        if line == b"{":
+            depth, block = depth + 1, True
+        elif line == b"}":
+            depth -= 1
+            if depth < 0:
+                return False
+        elif line == b"setup();":
+            setup = setup or depth == 0
+        elif line == b"crash();":
+            if depth > 0 and not setup:
+                return False
+            crashed = True
+    return depth == 0 and block and crashed
+
+
+def move_runs(ctx, reps):
+    """minimize-balanced WITH the experimental move (not modelled; monitor only): an accepted move does not shorten the
+    file but must still cause another pass, so a run that ends normally still ends at the fixpoint.  The move code of the
+    unchanged tree can fail its own assertions or loop (it is 'experimental'); such runs are counted, not judged."""
+    rng = ctx.rng
+    fixed = [[b"setup();\n", b"{\n", b"crash();\n", b"}\n"], [b"{\n", b"a\n", b"o\n", b"}\n"], [b"x\n", b"(\n", b"y\n", b"z\n", b")\n", b"w\n"]]
+    for i in range(reps):
+        if i < len(fixed):
+            parts = fixed[i]
+        else:
+            n = rng.choice([3, 4, 5, 6, 8])
+            pool = rng.choice([ATOMS, [b"{\n", b"}\n", b"a\n", b"b\n", b"c\n"], [b"(\n", b")\n", b"x\n", b"y\n", b"{\n", b"}\n"],
+                               [b"setup();\n", b"{\n", b"crash();\n", b"}\n", b"x\n"]])
+            parts = [rng.choice(pool) for _ in range(n)]
+        f = (b"", parts, [True] * len(parts), b"")
+        salt = bytes([rng.randrange(256) for _ in range(3)])
+        thr = rng.randrange(30, 220)
+        need = rng.choice(parts)
+        fns = [lambda c: hashlib.blake2b(c + salt, digest_size=1).digest()[0] < thr,
+               lambda c: c.count(b"{") == c.count(b"}") and c.count(b"(") == c.count(b")") and need in c,
+               # order-sensitive: `need` must come after an opening brace that is still open
+               lambda c: (lambda i: i >= 0 and c[:i].count(b"{") > c[:i].count(b"}"))(c.find(need)),
+               # well-formed nesting, the atom inside a block, and a line that is only needed when the atom is inside
+               scoped_oracle]
+        for cfg in (dict(move=True), dict(move=True, rep="always")):
+            for fn in fns:
+                tc = strat.testcase_from_fields("line", f)
+                table = {}
+
+                def dec(k, c, fn=fn, table=table):
+                    table[c] = fn(c)
+                    return table[c]
+
+                run = strat.run_real("minimize-balanced", cfg, tc, dec, max_tests=3000, watchdog=5.0)
+                ctx.evaluations += 1
+                case = dict(strategy="minimize-balanced", cfg=cfg, parts=enc_list(parts), label="move",
+                            verdicts="".join("1" if v else "0" for v in run.verdicts[:200]))
+                if run.error:
+                    ctx.bump("move-run-not-judged:" + run.error.split(":")[0])
+                    continue
+                ctx.bump("runs:minimize-balanced+move")
+                check_fixpoint(ctx, "minimize-balanced", run, table, case, fn)
+
+
 def search(ctx):
+    move_runs(ctx, 60)
     trees(ctx, 4, 600, 30, do_model=False)
     families(ctx, 40, do_model=False)
 
@@ -168,6 +232,7 @@ def run(ctx) -> int:
     if complete:
         ctx.exhaustive.append("every deterministic test (complete verdict tree) for the listed arrangements of n <= 4 (quick) / 5 (thorough) bracket-bearing atoms")
     families(ctx, 60 if ctx.thorough else 20)
+    move_runs(ctx, 120 if ctx.thorough else 30)
     return common.decide(ctx, proof, RULE, search=search,
                          assumptions=["the fixpoint clauses are checked by the monitor on the real code and tied to the Lean models of the two passes by "
                                       "proposal-by-proposal correspondence; the Lean theorems cover the passes' bookkeeping (see DESIGN.md §4 C13)"])
